@@ -24,6 +24,69 @@ CLAIMED = {
              'inapplicable); SimTable/SimStore stubs stand for user row and '
              'byte sources. Optional-dependency back ends are not importable '
              'here and are not covered.'),
+    'C02': dict(
+        level='exploration', ref='§3 C02',
+        technique='deterministic simulation: metered row/byte sources, '
+                  'consumer tasks under an interleaving schedule, '
+                  'differential run on two source lengths, poisoned tails',
+        text='Every streaming recipe (and stacks of them), the extractors '
+             'and the pass-through views are driven by 1..3 consumers '
+             '(next(), islice, head, look, see, _repr_html_, ...) on metered '
+             'sources of two lengths; the check asserts zero data-row pulls '
+             'at construction for all recipes, pulls <= k + declared '
+             'look-ahead after every step, identical cost on both lengths, '
+             'nothing pulled when an iterator is released. Sampled.',
+        note='Trusted: the declared look-ahead constants in '
+             'sim/catalogue.py; attribution of pulls to the task being '
+             'stepped. Materialising utilities (facet, lookup*, counters) '
+             'are outside the property.'),
+    'C03': dict(
+        level='exploration', ref='§3 C03',
+        technique='deterministic simulation: iterator scheduler on aliasing '
+                  'sources with a temporal non-mutation invariant checked '
+                  'after every step',
+        text='C01-style schedules (partial and full iteration, several '
+             'iterators) on sources that hand out their stored mutable rows '
+             '(incl. list/dict cells); after construction and after every '
+             'step the deep snapshots of sources and mutable arguments and '
+             'the canonical form of every delivered row are re-compared; '
+             'consumers such as lookup/columns/look/tocsv run at the end. '
+             'Sampled.',
+        note='Trusted: canonical snapshots (type name + repr per cell); the '
+             'harness itself never mutates a row.'),
+    'C05': dict(
+        level='exploration', ref='§3 C05',
+        technique='deterministic simulation: external sort on real temp '
+                  'files under randomised knobs and pass histories with '
+                  'source-failure injection; oracle = independent stable '
+                  'reference sort',
+        text='sort and mergesort on simulated sources with buffersize at '
+             'the boundaries (1,2,3,n-1,n,n+1,n+2,None), cache on/off, '
+             'tempdir, global default, reverse, all key forms; 1..3 '
+             'interleaved/abandoned passes, optional source failure for one '
+             'pass, then two fresh passes; every delivered row compared with '
+             'a reference sort written independently of petl. Sampled.',
+        note='Trusted: sim/models.py (cross-checked against petl.Comparable '
+             'on all pairs of the value pool at every run); the conservative '
+             'value domain (no NaN, no list-vs-tuple mixes). Two recorded '
+             'findings for mergesort are listed in known_findings.json.'),
+    'C18': dict(
+        level='exploration', ref='§3 C18',
+        technique='deterministic simulation with fault injection: histories '
+                  'of iterator/view lifetime events, source failures and '
+                  'ENOSPC on a private real temp directory; directory-empty '
+                  'and completeness invariants',
+        text='Histories of create/advance/abandon/close/drop-view/gc on '
+             'every temp-file-creating view (sort, all sort-backed '
+             'operators with small buffers, fromdicts on a generator), with '
+             'a source failing at a chosen row or the disk filling up after '
+             'a byte budget; at quiescence the sandbox must be empty, '
+             'surviving iterators and later passes complete, no exception '
+             'in a finaliser, and a fresh pass after the faults stop '
+             'complete. Sampled.',
+        note='Trusted: CPython reference counting + gc.collect(); POSIX '
+             'unlink semantics; harness reference hygiene (histories run in '
+             'their own frame, exceptions never stored).'),
 }
 
 NOT_APPLICABLE = {
@@ -55,8 +118,10 @@ def main():
     props = [json.loads(l)['id'] for l in
              open(os.path.join(VERIF, 'properties.jsonl'))]
     checks = []
+    built = [pid for pid in CLAIMED if os.path.exists(
+        os.path.join(VERIF, 'checks', pid.lower() + '.py'))]
     for pid in props:
-        if pid not in CLAIMED:
+        if pid not in built:
             continue
         c = CLAIMED[pid]
         checks.append({
@@ -73,7 +138,7 @@ def main():
         })
     na = []
     for pid in props:
-        if pid in CLAIMED:
+        if pid in built:
             continue
         if pid in NOT_APPLICABLE:
             na.append({'property_id': pid, 'reason': NOT_APPLICABLE[pid]})
@@ -99,7 +164,7 @@ def main():
         },
         'engines': [{
             'name': 'petl-sim', 'path': 'sim/',
-            'serves_properties': sorted(CLAIMED),
+            'serves_properties': sorted(built),
             'kind_free_text': 'deterministic simulation with fault '
                               'injection: seeded scheduler of iterator '
                               'steps, simulated row/byte/clock devices, real '
